@@ -30,3 +30,9 @@ package hmac
 //@   trusted
 //@   ensures err == nil ==> result0 == hmacstr(c, text) && result0 != ""
 //@   ensures err != nil ==> result0 == ""
+
+// Randomness is trusted: n bytes (freshness and unpredictability are cryptographic assumptions).
+//@ func RandomBytes
+//@   trusted
+//@   ensures result1 == nil ==> len(result0) == n
+//@   ensures result1 != nil ==> len(result0) == 0
